@@ -461,7 +461,14 @@ class ADEV(Pytree):
         jaxpr: Jaxpr,
         consts: list[ArrayLike],
         flat_duals: list[Dual],
+        dual_kont: Callable[..., Any] | None = None,
+        pure_kont: Callable[..., Any] | None = None,
     ):
+        # `dual_kont` / `pure_kont` are the continuations of the computation that
+        # encloses this Jaxpr (the code after a `cond` whose branch is being
+        # interpreted). Every path through the Jaxpr - including the continuations
+        # handed to sample sites - ends by calling them, so an estimator inside a
+        # branch sees the enclosing program's remainder as part of f.
         dual_env = Environment()
         jax_util.safe_map(dual_env.write, jaxpr.constvars, Dual.tree_pure(consts))
         jax_util.safe_map(dual_env.write, jaxpr.invars, flat_duals)
@@ -483,7 +490,10 @@ class ADEV(Pytree):
                     outs = [outs]
                 jax_util.safe_map(pure_env.write, eqn.outvars, outs)
 
-            return jax_util.safe_map(pure_env.read, jaxpr.outvars)
+            outs = jax_util.safe_map(pure_env.read, jaxpr.outvars)
+            if pure_kont is not None:
+                return pure_kont(outs)
+            return outs
 
         # Dual evaluation.
         def eval_jaxpr_iterate_dual(
@@ -573,13 +583,26 @@ class ADEV(Pytree):
                     # Handle branching.
                     elif eqn.primitive is jax.lax.cond_p:
                         # Create dual continuation for the computation after the cond_p.
+                        # Sites inside a branch call it (and its pure counterpart) as
+                        # part of their own continuations, so each call gets its own
+                        # copy of the environment.
+                        cond_env = dual_env
+
                         def _cond_dual_kont(dual_tree: list[Any]):
                             dual_leaves = Dual.tree_pure(dual_tree)
                             return eval_jaxpr_iterate_dual(
                                 eqns[eqn_idx + 1 :],
-                                dual_env,
+                                cond_env.copy(),
                                 eqn.outvars,
                                 dual_leaves,
+                            )
+
+                        def _cond_pure_kont(flat_outs: list[Any]):
+                            return eval_jaxpr_iterate_pure(
+                                eqns[eqn_idx + 1 :],
+                                _primal_env(cond_env),
+                                eqn.outvars,
+                                flat_outs,
                             )
 
                         branch_adev_functions = list(
@@ -587,6 +610,7 @@ class ADEV(Pytree):
                                 lambda fn: ADEV.forward_mode(
                                     jaxpr_as_fun(fn),
                                     _cond_dual_kont,
+                                    _cond_pure_kont,
                                 ),
                                 params["branches"],
                             )
@@ -643,30 +667,39 @@ class ADEV(Pytree):
             (out_dual,) = jax_util.safe_map(dual_env.read, jaxpr.outvars)
             if not isinstance(out_dual, Dual):
                 out_dual = Dual(out_dual, _zero_tangent_like(out_dual))
+            if dual_kont is not None:
+                return dual_kont(out_dual)
             return out_dual
 
         return eval_jaxpr_iterate_dual(jaxpr.eqns, dual_env, jaxpr.invars, flat_duals)
 
     @staticmethod
-    def forward_mode(f, kont=lambda v: v):
+    def forward_mode(f, kont=lambda v: v, pure_kont=None):
         def _inner(*duals: DualTree):
             primals = Dual.tree_primal(duals)
             closed_jaxpr, (_, _, out_tree) = stage(f)(*primals)
             jaxpr, consts = closed_jaxpr.jaxpr, closed_jaxpr.literals
             dual_leaves = Dual.tree_leaves(Dual.tree_pure(duals))
-            out_duals = ADEV.eval_jaxpr_adev(
+
+            # The continuation runs at the end of every path through f (once per
+            # continuation call of a sample site in f), not once on the estimate
+            # that f's sites return: E[kont(f)] is not kont(E[f]).
+            def _finish(out_duals):
+                out_tree_def = out_tree()
+                tree_primals, tree_tangents = Dual.tree_unzip(out_duals)
+                out_dual_tree = Dual.dual_tree(
+                    jtu.tree_unflatten(out_tree_def, tree_primals),
+                    jtu.tree_unflatten(out_tree_def, tree_tangents),
+                )
+                return kont(out_dual_tree)
+
+            return ADEV.eval_jaxpr_adev(
                 jaxpr,
                 consts,
                 dual_leaves,
+                _finish,
+                pure_kont,
             )
-            out_tree_def = out_tree()
-            tree_primals, tree_tangents = Dual.tree_unzip(out_duals)
-            out_dual_tree = Dual.dual_tree(
-                jtu.tree_unflatten(out_tree_def, tree_primals),
-                jtu.tree_unflatten(out_tree_def, tree_tangents),
-            )
-            vs = kont(out_dual_tree)
-            return vs
 
         # Force coercion to JAX arrays.
         def maybe_array(v):
